@@ -66,6 +66,29 @@ META = {
                      "transformed bounds, and clamping of both directions for every input. Floating-point rounding (1e-9 of the width) and the log round trip are a bounded sampling check.",
                 note=PROOF_NOTE + " Reals for floats; log/exp uninterpreted with ground monotonicity and inverse facts; the flag vector passed in is NaN or 0 per coordinate (as BADS passes it); "
                      "the constructor's numeric self-test is treated as opaque (it only decides whether ValueError is raised)."),
+    "C14": dict(level="proof",
+                text="The LTMADS construction as structural postconditions/intermediate assertions on the real generator for every outcome of its random draws, every D and every mesh ratio, "
+                     "plus a machine-checked Lean 4/Mathlib lemma (non-singularity of the transposed row-permuted lower-triangular matrix with non-zero diagonal, invariance under column scaling, "
+                     "positive spanning of {+-d_i}); the poll loop evaluates at most 2D points.",
+                note=PROOF_NOTE + " np.random.randint / permutation, np.tril, np.eye, np.transpose are trusted primitive models. The clause 'every polled point == incumbent + mesh * direction, each direction once' "
+                     "is checked on real runs by the bounded panel, and the generator is additionally enumerated exhaustively for D <= 3 (bounded)."),
+    "C18": dict(level="proof",
+                text="In the real ESSearch.__call__, for every number of ES generations, every population size and every outcome of the candidate filter (including generations with no survivor): "
+                     "the proposal is one of the surviving candidates, carries that candidate's acquisition value, no surviving candidate of any generation has a lower value, and all of them lie in the "
+                     "mesh-rounded search box; the hedge probabilities sum to 1 with each >= gamma for every score vector; a search step costs at most one target evaluation.",
+                note=PROOF_NOTE + " Assumed (listed in evidence): acq_fcn_lcb returns for each row a value that depends only on that row and func_count (GP.predict pure and row-wise, T4). "
+                     "Candidate generation statements are executed as havoc. Sum over a vector is an uninterpreted linear functional over mathematical reals (no rounding). "
+                     "The rank-selection mask (_get_selection_idx_mask_) is only checked exhaustively up to a bound (bounded, not proved); "
+                     "the random choice itself (argwhere on the cumulative sum) is not modelled."),
+    "C15": dict(level="proof",
+                text="On the real training-set functions, for every log state (repeats, any number of rows, with/without supplied noise), every dimension and every value of the metric: "
+                     "each training pair handed to the GP is a logged evaluation with the supplied noise as SD squared, the local training set is the nearest logged points in ascending "
+                     "distance with the configured size limits, the incremental add appends exactly the pair it is given, and the acquisition value is mean - sqrt(beta_t) * sd with "
+                     "the documented beta_t.",
+                note=PROOF_NOTE + " The length-scaled metric udist is not verified (its result vector is a ghost; ordering and selection are proved relative to it) - its value is only "
+                     "recomputed in the bounded layer. gp.predict / gp.update are assumed contracts on gpyreg (T4: predict pure, update leaves the training set alone). "
+                     "That the pair passed to add_and_update_gp at its call site is the one just returned by the logger, and that local_gp_fitting stores the selected set unchanged, "
+                     "are checked on real runs by the bounded panel only."),
     "C04": dict(level="proof",
                 text="For deterministic targets the returned point is a logged evaluation with exactly the logged value and no logged value is lower: an invariant "
                      "(incumbent logged, minimal, fval == yval, fsd == 0) proved for the initial design, every search step, every poll loop iteration and the main loop, "
